@@ -55,6 +55,9 @@ class XP(ASTNode):
     def __len__(self) -> int:  # container-like: falsy in a boolean context while `items` is empty (may still hold other children)
         return len(self.items)
 
+    def __iter__(self):  # container-like: iterating over the node yields its `items`
+        return iter(self.items)
+
 
 U = Universe("c07", [
     C("XL", XL, [F("v", PROP, alphabet=(0,))]),
@@ -263,8 +266,78 @@ def variants(steps):
     return list(dict.fromkeys(out))
 
 
+def check_deep(rec: Rec):
+    """xpath search and match on a single-path tree 1200 levels deep (beyond the interpreter's recursion limit)."""
+    NODE_REGISTRY.clear()
+    depth = 1200
+    x = XL(1)
+    nodes = [x]
+    for i in range(depth):
+        x = XP(one=x) if i % 2 else XP(items=(x,))
+        nodes.append(x)
+    nodes.reverse()
+    root, leaf = nodes[0], nodes[-1]
+    case = {"xpath": "deep-chain", "tree": f"chain of depth {depth}"}
+    try:
+        tree = Tree(root)
+        probes = [("//XL", [id(leaf)]), ("/XP/XP", [id(nodes[1])]), ("//XP/@one XL", [id(leaf)] if isinstance(getattr(nodes[-2], "one", None), XL) else []),
+                  ("/XP//XP/XP//XL", [id(leaf)]), ("//@items[0]XL", [id(leaf)] if nodes[-2].items else [])]
+        for text, exp in probes:
+            rec.count("states"); rec.count("transitions"); rec.count("traces"); rec.count("evaluations")
+            xp = ASTXpath(text)
+            got = [id(n) for n in xp.findall(root)]
+            if got != exp:
+                rec.violation("C07|deep-chain|findall", dict(case, xpath_text=text), f"findall on a chain of depth {depth}: {len(got)} hits, expected {len(exp)}")
+            if xp.match(tree, leaf) is not (id(leaf) in exp) or xp.match(root, nodes[1]) is not (id(nodes[1]) in exp):
+                rec.violation("C07|deep-chain|match", dict(case, xpath_text=text), "match on a deep chain differs from the documented semantics")
+    except RecursionError:
+        rec.violation("C07|deep-chain|recursion", case, f"xpath search on a chain of depth {depth} raised RecursionError")
+    rec.outcome("deep-chain")
+    NODE_REGISTRY.clear()
+
+
+ILL_FORMED = ["//NoSuchClass", "NoSuchClass", "/XP//", "XP//@items[x]XL", "//", "/XP/@items[", "/XP//NoSuchClass/XL", "//@items[1]NoSuchClass", "/XP/"]
+
+
+def check_after_rejected(rec: Rec, cfg, idx0):
+    """History dimension: a REJECTED xpath is compiled first (syntax error, unknown class, a path that ends in a separator -
+    each leaves the parser at another point), then a well-formed one is compiled for the first time and judged as usual."""
+    import pyoak.match.xpath as XM
+
+    NODE_REGISTRY.clear()
+    tcs = [TreeCase(d, clear=False) for d in shaped_trees()[2:5]]
+    fam = list(RX.paths(1, FIELDS_RED, INDICES_RED, CLASSES_RED)) + list(RX.paths(2, FIELDS_MIN, INDICES_MIN, CLASSES_MIN + ["XP"]))
+    idx = idx0
+    for ill in ILL_FORMED:
+        for steps in fam:
+            idx += 1
+            if idx % cfg["of"] != cfg["k"]:
+                continue
+            rec.rank = 5 * 10**7 + idx
+            text = RX.render(steps)
+            XM._AST_XPATH_CACHE.clear()
+            try:
+                ASTXpath(ill)
+                rec.violation("C07|after-rejected|ill-formed-accepted", {"xpath": ill, "tree": None}, "an ill-formed xpath was accepted")
+                continue
+            except Exception:  # noqa: BLE001  (which error an ill-formed text raises is C17's business)
+                pass
+            before = len(rec.viol)
+            for tc in tcs:
+                check(rec, tc, steps, text)
+            if len(rec.viol) > before:
+                # say what came first: the same (xpath, tree) pair passes when nothing was rejected before it
+                for sig in list(rec.viol)[before:]:
+                    rec.viol[sig]["case"]["compiled_after_rejected"] = ill
+            rec.outcome("after-rejected")
+    return idx
+
+
 def run_shard(cfg):
     rec = Rec(cfg)
+    if cfg["k"] == 9 % cfg["of"]:
+        check_deep(rec)
+    check_after_rejected(rec, cfg, 0)
     idx = 0
     for label, trees, mk in workload(cfg["tier"]):
         tcs = None
@@ -290,6 +363,17 @@ def run_shard(cfg):
 def replay(case, cfg):
     """The xpath text is re-parsed by the reference tokenizer below (texts are generated by render())."""
     rec = Rec(cfg)
+    if case.get("xpath") == "deep-chain":
+        check_deep(rec)
+        return rec.result()["violations"]
+    if case.get("compiled_after_rejected"):
+        import pyoak.match.xpath as XM
+
+        XM._AST_XPATH_CACHE.clear()
+        try:
+            ASTXpath(case["compiled_after_rejected"])
+        except Exception:  # noqa: BLE001
+            pass
     steps = parse_rendered(case["xpath"])
     tc = TreeCase(case["tree"])
     check(rec, tc, steps, case["xpath"], front_ends=True)
